@@ -57,7 +57,8 @@ Inductive ev :=
 | EvPark (t : Z) (id : Z)                    (* parked on entry id (not a return) *)
 | EvRet  (t : Z) (r : Z)                     (* unlock (0) / adjust_range (0 or -1) returned *)
 | EvBusy (t : Z)                             (* script error: thread is inside a blocking call *)
-| EvStale (t : Z).                           (* script error: handle does not name a live node (UB in C++) *)
+| EvStale (t : Z)                            (* script error: handle does not name a live node (UB in C++) *)
+| EvUB (t : Z).                              (* std::set precondition violated (see [dup_empty]); not executed *)
 
 (* ---- std::set::lower_bound(r) on the ordered list ---------------------------
    first element x with !(x < r), i.e. !(x.end() <= r.offset); returned as the split
@@ -72,11 +73,29 @@ Fixpoint lb_split (o : Z) (l : list entry) : list entry * list entry :=
                else ([], l)
   end.
 
+(* ---- when the list model stops being a model of std::set ---------------------
+   range_t::operator< is not irreflexive on a range whose end() equals its offset (length 0,
+   or offset = 2^64-1 where end() saturates): such a range is "less than" itself.  Inserting
+   a second one at the same point p is the only situation in which two keys are less than
+   each other, i.e. in which the Compare requirements of std::set are violated.  libstdc++
+   then decides the side in _M_insert_node by comp(new, parent) = true and overwrites the
+   parent's left child when there is one (observed on the real class: three lock(1,0) calls
+   lose a node and the process segfaults).  This is undefined behaviour; the model reports it
+   as EvUB and does not execute the call, and so does the harness.  It cannot happen under
+   the guards of known finding F3/F4 (length > 0, offset + length <= 2^64-1). *)
+Definition dup_empty (pre : list entry) (o l : Z) : bool :=
+  (r_end o l =? o) &&
+  match rev pre with
+  | x :: _ => (e_off x =? o) && (e_end x =? o)
+  | [] => false
+  end.
+
 (* ---- try_lock_wait (28-42) / try_lock_wait2 (61-75), first half ------------- *)
 Definition attempt (s : state) (t : Z) (k : kind) (o l : Z) : state * list ev :=
   let rend := r_end o l in
   let (pre, post) := lb_split o (idx s) in               (* it = m_index.lower_bound(r) *)
   let insert :=                                          (* m_index.emplace_hint(it, r) *)
+    if dup_empty pre o l then (s, [EvUB t]) else
     (mkSt (pre ++ mkE o l (nid s) [] :: post) (nid s + 1) (pend s) (ready s),
      [EvAcq t k (nid s)]) in
   match post with
